@@ -12,6 +12,53 @@ def _nontrivial(st):
   return None
 
 
+def methods_via_class(rep):
+  """A method registered on a registered class is addressable only through its class name: the GinRegister
+  behaviour (register the method, then its class: the method entry is renamed to Class.method) observed through
+  every binding path."""
+  from ginverif import adapter_register as R
+  for api in ('external', 'register'):
+    w = R.RegWorld()
+    try:
+      gin = w.gin
+      base = dict(nameValid=True, moduleValid=True, bothLists=False, listNotSequence=False, unknownListName=False)
+      assert w.register(dict(base, sel='m.meth', obj='meth', method='none', methodName=''), 'register') == 'ok'
+      assert w.register(dict(base, sel='m.K', obj='K', method='m.meth', methodName='meth'), api) == 'ok'
+      pre = w.prefix
+      paths = {
+          'string': lambda key: gin.bind_parameter(key + '.x', 5),
+          'tuple': lambda key: gin.bind_parameter(('', key, 'x'), 5),
+          'text': lambda key: gin.parse_config(key + '.x = 5'),
+          'block': lambda key: gin.parse_config(key + ':\n  x = 5\n'),
+          'query': lambda key: gin.query_parameter(key + '.x'),
+      }
+      gin.bind_parameter(pre + '.K.meth.x', 1)
+      for how, fn in paths.items():
+        for key, want in (('meth', 'ValueError'), (pre + '.meth', 'ValueError'), ('K.meth', 'ok'), (pre + '.K.meth', 'ok')):
+          rep.evaluations += 1
+          rep.nontrivial_case('method-addressing/%s/%s/%s' % (api, how, key.replace(pre, 'm')))
+          before = gin.config_str()
+          try:
+            fn(key)
+            got = 'ok'
+          except (ValueError, KeyError) as e:
+            got = type(e).__name__
+          if got != want:
+            rep.violation(dict(kind='method-addressing', path=how, key=key.replace(pre, 'm'), expected=want),
+                          dict(kind='method-addressing', api=api, path=how, key=key, expected=want, got=got))
+          elif want != 'ok' and gin.config_str() != before:
+            rep.violation(dict(kind='method-addressing', path=how, clause='rejected-binding-changed-config'),
+                          dict(kind='method-addressing', api=api, path=how, key=key))
+      # the binding reaches the method of instances built by the configurable class
+      inst = gin.get_configurable(w.objs['K'])()
+      if inst.meth() != 5:
+        rep.violation(dict(kind='method-addressing', clause='injected-through-class'),
+                      dict(kind='method-addressing', api=api, got=inst.meth()))
+      gin.clear_config()
+    finally:
+      w.close()
+
+
 def run(tier):
   rep = core.Report('C11', tier)
   rep.rule = ('TLC checks acceptance = (signature can take it, inside allowlist, outside denylist), atomicity of '
@@ -22,6 +69,7 @@ def run(tier):
   cc.model_check(rep, 'MC_BindValidation_quick')
   n = 200 if tier == 'quick' else 4000
   cc.replay_behaviours(rep, 'GinCore_Sim_bindval', num=n, nontrivial=_nontrivial, generate=n * 6)
+  methods_via_class(rep)
   return rep.finish()
 
 
